@@ -107,6 +107,14 @@ def random_case(rng, tier):
         if action['act'] == 'pause':
             action['msg'] = rng.choice([None, '', 'paused-by-env', 'p2'])
     case = {'program': program, 'schedule': schedule, 'opts': common.with_communicator(rng, {'final_play': True})}
+    if program.get('kind') != 'workchain' and rng.random() < 0.1:
+        # a caller that gives up on its pause request (asyncio.wait_for(proc.pause(), t) timing out cancels the future it got),
+        # followed - or not - by a fresh request in the same step: the withdrawn one must not swallow the new one
+        pos = rng.randint(0, ticks + 1)
+        burst = [{'act': 'pause', 'at': pos, 'msg': 'given-up'}, {'act': 'giveup', 'at': pos + rng.choice([0, 0, 1])}]
+        if rng.random() < 0.7:
+            burst.append({'act': 'pause', 'at': burst[-1]['at'] + rng.choice([0, 0, 1]), 'msg': 'again'})
+        schedule.extend(burst)
     if rng.random() < 0.12:
         case['disturbed'] = True
         extra = common.gen_schedule(rng, ['kill', 'fail', 'cancel_stepper', 'cancel_stepper', 'restep', 'pause', 'play'], 3, ticks, notify,
@@ -274,6 +282,9 @@ def _oracle(engine, result, reference, drive):
             pending = event
         elif tag == 'call' and event[2] == 'play':
             pending = None
+        elif tag == 'acted' and event[2] == 'giveup' and event[3] == 'True':
+            pending = None  # the caller cancelled the future of the outstanding request: withdrawn
+            result.counters['probe:pause_given_up'] += 1
         elif tag in ('step', 'wstep') and pending is not None:
             result.violate('pause_ignored', tag, f'{event[2]} was entered although a pause had been requested (and accepted) and '
                                                  f'no play() had been called since')
